@@ -94,7 +94,7 @@ pub struct VoiceOpts {
     pub trees_reversed: bool,
 }
 
-pub const WINDOW_SETS: [&[&[f64]]; 9] = [
+pub const WINDOW_SETS: [&[&[f64]]; 10] = [
     &[&[1.0]],
     &[&[1.0], &[-0.5, 0.0, 0.5]],
     &[&[1.0], &[-0.5, 0.0, 0.5], &[1.0, -2.0, 1.0]],
@@ -109,6 +109,8 @@ pub const WINDOW_SETS: [&[&[f64]]; 9] = [
     // dynamic windows written at a common width: exact zeros at both ends (the width in the file
     // is the width; the outer frames still count as read)
     &[&[1.0], &[0.0, -0.5, 0.0, 0.5, 0.0], &[0.0, 0.0, 1.0, -2.0, 1.0, 0.0, 0.0]],
+    // an asymmetric (backward-difference) delta written at width 3: zero-ended on one side only
+    &[&[1.0], &[-1.0, 1.0, 0.0], &[1.0, -2.0, 1.0]],
 ];
 
 pub fn window_set(id: usize) -> Vec<Vec<f64>> {
@@ -125,8 +127,8 @@ impl VoiceOpts {
             ln_gain: rng.chance(0.5),
             mcp_len: rng.range(2, 10),
             lpf_len: 2 * rng.range(0, 7) + 1,
-            win_mcp: rng.below(9),
-            win_lf0: rng.below(9),
+            win_mcp: rng.below(10),
+            win_lf0: rng.below(10),
             gv_mcp: rng.chance(0.5),
             gv_lf0: rng.chance(0.5),
             rate: *rng.pick(&[8000usize, 16000, 22050, 44100, 48000]),
@@ -516,11 +518,14 @@ pub fn generate(opts: &VoiceOpts, pool: &QuestionPool, rng: &mut Rng) -> VoiceSp
             for w in 1..nwin {
                 v[nwin + w] = f32r(rng, 0.0005, 0.02);
             }
-            v[2 * nwin] = match rng.below(8) {
+            v[2 * nwin] = match rng.below(10) {
                 0 => 0.5,
                 1 => 0.25,
                 2 => 0.75,
                 3 => 0.95,
+                // the ends of the range: "certainly voiced" and "never voiced"
+                4 => 1.0,
+                5 => 0.0,
                 _ => f32r(rng, 0.02, 0.98),
             };
         }
@@ -576,8 +581,8 @@ pub fn generate(opts: &VoiceOpts, pool: &QuestionPool, rng: &mut Rng) -> VoiceSp
     // a few means are written as -0.0 (0x80000000): a loaded voice keeps the sign bit
     // (not in a line-spectral-pair stream, whose means must stay increasing frequencies)
     for (si, st) in streams.iter_mut().enumerate() {
-        if si == 0 && opts.stage != 0 {
-            continue;
+        if si == 0 && (opts.stage != 0 || opts.transparent) {
+            continue; // (a transparent voice keeps its all-zero spectrum: identity filter)
         }
         let nmean = st.vector_length * st.windows.len();
         for tree in st.model.pdfs.iter_mut() {
@@ -585,6 +590,9 @@ pub fn generate(opts: &VoiceOpts, pool: &QuestionPool, rng: &mut Rng) -> VoiceSp
                 for x in pdf.iter_mut().take(nmean) {
                     if rng.chance(0.02) {
                         *x = -0.0;
+                    } else if rng.chance(0.01) {
+                        // float32 denormals are values like any other
+                        *x = *rng.pick(&[f32::from_bits(1), -f32::from_bits(0x0040_0000), f32::MIN_POSITIVE / 2.0, -f32::from_bits(7)]);
                     }
                 }
             }
